@@ -277,6 +277,9 @@ def add_traits(prog, rng, backend, n=(1, 2)):
                 ret = " -> " + rng.choice([e for e in enums if local(e)]).name
             else:
                 ret = " -> " + rng.choice(TRAIT_PRIMS)
+            if rng.random() < 0.25:
+                # attributes the tool reads on trait methods; the macro must not leave them for rustc
+                lines.append("        " + rng.choice(['#[diplomat::attr(js, rename = "tmjs%d")]' % j, "/// Documented trait method.", '#[diplomat::rust_link(foo::Bar::baz, FnInTrait)]']))
             lines.append("        fn tm%d(&%sself%s)%s;" % (j, "mut " if rng.random() < 0.2 else "", "".join(", " + a for a in args), ret))
         name = "VfTr%d%s" % (k, host.name)
         # supertraits the backend declares it can honour, in every spelling that names std's marker traits
@@ -285,7 +288,11 @@ def add_traits(prog, rng, backend, n=(1, 2)):
             sups.append(rng.choice(["Send", "std::marker::Send", "core::marker::Send"]))
         if sup.get("traits_are_sync") and rng.random() < 0.4:
             sups.append(rng.choice(["Sync", "std::marker::Sync", "core::marker::Sync"]))
-        mod.extra_src += "    pub trait %s%s {\n%s\n    }\n" % (name, (": " + " + ".join(sups)) if sups else "", "\n".join(lines))
+        tattr = ""
+        if rng.random() < 0.4:
+            tattr = "    %s\n" % rng.choice(["#[diplomat::attr(dart, disable)]", "#[diplomat::attr(not(supports = traits), disable)]", "/// A documented trait.",
+                                            "#[diplomat::rust_link(foo::Bar, Trait)]", '#[diplomat::attr(js, rename = "JsTrait%d")]' % k])
+        mod.extra_src += "%s    pub trait %s%s {\n%s\n    }\n" % (tattr, name, (": " + " + ".join(sups)) if sups else "", "\n".join(lines))
         params = [("t", ("raw", "impl " + name))]
         if rng.random() < 0.5:
             params.insert(rng.randrange(2), ("n", ("prim", rng.choice(TRAIT_PRIMS))))
